@@ -85,9 +85,14 @@ class Ctx:
         self.axioms = {}
         self.notes = {}
         self.build_s = 0.0
+        self.unvalidated = []        # anchor files whose normalised AST differs from the validated baseline
 
     # ------------------------------------------------------------------ helpers for property modules
     def scale(self, quick, thorough):
+        if self.tier == "quick" and self.unvalidated and isinstance(quick, int) and isinstance(thorough, int) \
+                and not isinstance(quick, bool) and thorough > quick:
+            # the modelled source changed since the model was last validated against it: explore more
+            return min(thorough, 2 * quick)
         return quick if self.tier == "quick" else thorough
 
     def time_left(self):
@@ -171,6 +176,23 @@ class Ctx:
 def run_cmd(cmd, cwd=None, timeout=3600, env=None):
     p = subprocess.run(cmd, cwd=cwd, stdout=subprocess.PIPE, stderr=subprocess.STDOUT, timeout=timeout, env=env)
     return p.returncode, p.stdout.decode("utf-8", "replace")
+
+
+def anchor_hashes(ctx):
+    """normalised-AST hashes of the files the property is anchored in; a difference from tools/anchors.json is not an
+    alarm, it enlarges the budget of the quick tier (the hand-written model is unvalidated against this source)"""
+    sys.path.insert(0, os.path.join(VERIF, "tools"))
+    try:
+        import anchors
+        cur, diff = anchors.changed(ctx.prop, REPO)
+    except Exception as e:
+        ctx.notes["model_anchor_hashes"] = "unavailable: %r" % e
+        return
+    ctx.notes["model_anchor_hashes"] = cur
+    ctx.notes["anchors_changed_since_validation"] = diff
+    if diff and ctx.tier == "quick":
+        ctx.unvalidated = diff
+        ctx.budget = float(os.environ.get("VERIF_UNVALIDATED_BUDGET", "330"))
 
 
 def regenerate_consts(ctx):
@@ -437,6 +459,7 @@ def main(argv):
                     return 1
                 print("replay: property holds on the recorded case")
                 return 0
+        anchor_hashes(ctx)
         if not a.no_lean:
             regenerate_consts(ctx)
             targets = ["BobModel.Props." + prop, "drv_selftest"]
